@@ -71,7 +71,7 @@ def gen_prog(rng):
     else:
         vals = [rng.choice(pool[:4]) for _ in range(n)]
     kind = rng.choice(['snap', 'snap', 'drain', 'drainq', 'rotate', 'copy', 'copya', 'counter', 'susp', 'renew', 'snap_retract',
-                       'keyed', 'keyed'])
+                       'keyed', 'keyed', 'wipe'])
     if kind == 'keyed':
         return gen_keyed_prog(rng)
     c = {'kind': 'prog', 'template': kind, 'facts': {'p': [[_tv(v)] for v in vals]}, 'read': [['p', 1]]}
@@ -152,6 +152,19 @@ def gen_prog(rng):
         c['expect_answers'] = [[]]
         c['expect_db'] = {'p': [], 'q': [[_tv(v)] for v in vals[:1]]}
         c['loops'] = len(vals)
+    elif kind == 'wipe':
+        # round 4: clear() called by a Python predicate INSIDE the loop, while the enumerating goal is suspended: a retract
+        # finds none of its remaining candidates in the new store and ends; a query goes on in the list it read
+        ret = rng.random() < 0.6
+        again = rng.random() < 0.4
+        goal = 'retract(p(X))' if ret else 'p(X)'
+        c['source'] = 'go :- %s, tick, wipe, %sassertz(moved(X)), fail.\ngo.\n' % (goal, 'assertz(p(X)), ' if again else '')
+        c['query'] = ['go', 0]
+        c['read'] = [['p', 1], ['moved', 1]]
+        c['expect_answers'] = [[]]
+        seen = vals[:1] if ret else vals
+        c['expect_db'] = {'p': [[_tv(v)] for v in (seen[-1:] if again else [])], 'moved': [[_tv(v)] for v in seen[-1:]]}
+        c['loops'] = len(seen)
     elif kind == 'renew':
         # a suspended retract must not lose facts that were added meanwhile
         front = rng.random() < 0.5
@@ -187,7 +200,7 @@ def gen_keyed_prog(rng):
     key = ['a', 'a'] if rng.random() < 0.8 else rng.choice([['a', 'b'], ['i', 1] if mixed else ['a', 'c']])
     hit = [r for r in rows if r[0] == key or r[0][0] == 'v']
     c = {'kind': 'prog', 'template': 'keyed', 'facts': {'p': rows}, 'read': [['p', 2]], 'query': ['go', 1], 'qargs': [key],
-         'expect_answers': [[key]], 'loops': len(hit), 'rows': n}
+         'expect_answers': [[key]], 'loops': len(hit), 'rows': n, 'budget': 10 * n + 50}
     if rng.random() < 0.6:
         front = rng.random() < 0.25
         c['source'] = 'go(K) :- p(K, X), tick, %s(p(K, new(X))), fail.\ngo(_).\n' % ('asserta' if front else 'assertz')
@@ -207,10 +220,17 @@ def run_prog(case):
     count = [0]
     def tick():
         count[0] += 1
-        if count[0] > STEP_BUDGET:
+        if count[0] > case.get('budget', STEP_BUDGET):
             raise Budget()
         yield False
     yp.register_function('tick', tick)
+    def wipe():
+        # an application that resets the engine from a callback; it registers its Python predicates again
+        yp.clear()
+        yp.register_function('tick', tick)
+        yp.register_function('wipe', wipe)
+        yield False
+    yp.register_function('wipe', wipe)
     yp.load_script_from_string(compiler.compile_prolog_from_string(case['source']))
     T0 = terms.ImplTerms(yp)
     for name, rows in case['facts'].items():
@@ -247,7 +267,7 @@ def prog_oracle(case, io):
     if not isinstance(io, dict):
         return None
     if io['end'] == 'budget':
-        return 'the program did not terminate within %d steps (answers so far: %d)' % (STEP_BUDGET, len(io['answers']))
+        return 'the program did not terminate within %d steps (answers so far: %d)' % (case.get('budget', STEP_BUDGET), len(io['answers']))
     if io['end'] != 'done':
         return io['end']
     reps = case.get('repeat', 1)
